@@ -100,8 +100,8 @@ theorem runActions_spec (s : State) (acts : List Action) (oog : Nat → Bool) :
 /-- One `ProcessTriggers` on a well-formed store: it never panics; it executes a prefix of the
 queue; at most `n` triggers whose gas limits (the stored ones) fit the remaining block gas; the
 store stays well formed; nothing is registered; the result is `replay` of the executed list. -/
-theorem processLoop_spec (oog : Nat → Nat → Bool) : ∀ (n gc : Nat) (s : State), WF s →
-    ∃ s' xs, processLoop oog n gc s = some (s', xs) ∧ WF s' ∧
+theorem processLoop_spec (cost : Nat → Nat → Nat) : ∀ (n gc : Nat) (s : State), WF s →
+    ∃ s' xs, processLoop cost n gc s = some (s', xs) ∧ WF s' ∧
       qList s = (qList s).take xs.length ++ qList s' ∧
       xs.map (·.id) = ((qList s).take xs.length).map (·.trigger.id) ∧
       xs.map (·.actions) = ((qList s).take xs.length).map (·.trigger.actions) ∧
@@ -138,13 +138,13 @@ theorem processLoop_spec (oog : Nat → Nat → Bool) : ∀ (n gc : Nat) (s : St
         intro _ _ hgc; subst hgc
         simp only [MaximumQueueGas, MaximumTriggerGas] at hcap hgcap; omega
       · simp only [hcap, if_false]
-        have hra := WF_runActions hw1 item.trigger.actions (oog item.trigger.id)
+        have hra := WF_runActions hw1 item.trigger.actions (gasOog g (cost item.trigger.id))
         have hspec := runActions_spec (removeGasLimit (dequeue s) item.trigger.id) item.trigger.actions
-          (oog item.trigger.id)
+          (gasOog g (cost item.trigger.id))
         generalize hr : runActions (removeGasLimit (dequeue s) item.trigger.id) item.trigger.actions
-          (oog item.trigger.id) = r at hra hspec
+          (gasOog g (cost item.trigger.id)) = r at hra hspec
         obtain ⟨s', rest, hp, hw', hql, hids, hacts, hlen, hnx, htr, hln, hsum, hgl, hrep, hbl, _⟩ :=
-          processLoop_spec oog n (gc + g) r.2.2 hra.1
+          processLoop_spec cost n (gc + g) r.2.2 hra.1
         rw [hp]
         have hq2 : qList r.2.2 = qList (removeGasLimit (dequeue s) item.trigger.id) := hra.2.qList
         have hnotreg : s.triggers item.trigger.id = none := (hw.q item hmem).1
